@@ -260,11 +260,11 @@ class Run:
             "bounds": meta.get("bounds", {}),
             "outside_bounds": meta.get("outside", []),
             "stubs": meta.get("stubs", []),
-            "conditions": [{"name": r["cond"], "role": r["role"], "verdict": r.get("verdict"), "secs": r.get("secs"),
+            "e1_conditions": [{"name": r["cond"], "role": r["role"], "verdict": r.get("verdict"), "secs": r.get("secs"),
                             "paths": r.get("stats", {}).get("num_paths"), "note": r["_cond"].note,
                             "cex": r.get("cex_call") if r["role"] != "main" or r.get("verdict") == "cex" else None}
                            for r in sorted(self.cond_results, key=lambda x: x["cond"])],
-            "obligations": [{k: v for k, v in r.items() if not k.startswith("_") and k not in ("sample",)}
+            "e2_obligations": [{k: v for k, v in r.items() if not k.startswith("_") and k not in ("sample",)}
                             for r in sorted(self.obl_results, key=lambda x: x["obl"])],
             "queries_discharged": {"e1_conditions_confirmed": len(conf),
                                    "e1_conditions_total": len([r for r in self.cond_results if r["_cond"].role == "main"]),
